@@ -65,6 +65,10 @@ DIRECTED = [
 ]
 
 
+QUICK_DIRECTED = {"mutex-3", "random-2x2", "mbox-2to1", "cond-timedwait-vs-notify", "waitany-2", "test-both", "lock-order",
+                  "independent", "barrier-1", "async-wait"}
+
+
 def key_of(rule, detail, cfg, feat, rc):
     return "C40:%s:%s:cfg=%s:f=%s:ref=%s" % (rule, detail, cfg.name(), feat, rc)
 
@@ -192,10 +196,11 @@ class Evaluator:
 
 
 def generate(ctx):
-    cases = [{"name": "d-" + n, "spec": s, "pop": "directed", "pinned": pin} for n, s, pin in DIRECTED]
     quick = ctx.tier == "quick"
-    ncore = ctx.size(quick=10, thorough=200)
-    ncomm = ctx.size(quick=6, thorough=90)
+    cases = [{"name": "d-" + n, "spec": s, "pop": "directed", "pinned": pin} for n, s, pin in DIRECTED
+             if not quick or n in QUICK_DIRECTED]
+    ncore = ctx.size(quick=4, thorough=200)
+    ncomm = ctx.size(quick=3, thorough=90)
     max_paths = 80 if quick else 1200
     bound = 120 if quick else 2500
     for i in range(ncore):
